@@ -709,13 +709,23 @@ class LinkWorld(CtorWorld):
                 n = NodeV("n-of-G")
                 env2 = dict(env)
                 env2[g.target.id] = n
-                v = ip.eval(e.elt, env2)
+                v = _as_node_entry(ip.eval(e.elt, env2))
                 if isinstance(v, NodeEntry) and v.node == n and v.idkey == Const("id"):
                     return NodeList()
                 return Opaque("node entries %r" % (v,))
         return super().eval_comprehension(ip, e, env)
 
+    def concretise_mapping(self, ip, v, node):
+        if isinstance(v, NodeAttrs):
+            return DictObj({Const("__attrs_of__"): v.node}, tag="attr-copy")
+        return None
+
     def call_builtin(self, ip, name, args, kwargs, node):
+        if name == "dict" and len(args) == 1 and isinstance(args[0], (NodeAttrs, DictObj)) and kwargs:
+            base = self.concretise_mapping(ip, args[0], node) if isinstance(args[0], NodeAttrs) else DictObj(dict(args[0].entries))
+            for k, v in kwargs.items():
+                base.entries[Const(k)] = v
+            return base
         if name == "dict" and len(args) == 1 and isinstance(args[0], NodeAttrs):
             # a fresh dict holding the node's attributes
             return DictObj({Const("__attrs_of__"): args[0].node}, tag="attr-copy")
@@ -739,6 +749,15 @@ class LinkWorld(CtorWorld):
         if isinstance(obj, NodeAttrs):
             return BoundMethod(obj, attr)
         return super().load_attr(ip, obj, attr, node)
+
+
+def _as_node_entry(x):
+    """{**attrs(n), key: n} in its dict form -> NodeEntry(n, key)"""
+    if isinstance(x, DictObj) and len(x.entries) == 2 and Const("__attrs_of__") in x.entries:
+        (k, v), = [(k, v) for k, v in x.entries.items() if k != Const("__attrs_of__")]
+        if v == x.entries[Const("__attrs_of__")]:
+            return NodeEntry(v, k)
+    return x
 
 
 class AttrItems:
